@@ -2,7 +2,8 @@
 //! ArchiveGroup::find_entry / ChunkedArchiveIndex::find_entry vs model and linear scan.
 
 use crate::common::{Case, Tally, be_dec, be_inc, err_class, gen_keyset, key_class, size32_nonzero, viol};
-use cascette_formats::archive::{ArchiveGroup, ArchiveGroupBuilder, ArchiveGroupEntry, ArchiveIndex, ArchiveIndexBuilder, ChunkedArchiveIndex, build_merged};
+use cascette_formats::CascFormat;
+use cascette_formats::archive::{ArchiveGroup, ArchiveGroupBuilder, ArchiveGroupEntry, ArchiveIndex, ArchiveIndexBuilder, ChunkedArchiveIndex, IndexEntry, build_merged};
 use serde_json::{Value, json};
 use std::collections::BTreeMap;
 use std::io::Cursor;
@@ -181,6 +182,20 @@ pub fn run_index(ctx: &Ctx, case: &Case, t: &mut Tally) {
             return;
         }
     };
+    if !verify_index(ctx, case, t, &mut rng, &parsed, &bytes, &model, ks, ob, dup, "", &info) {
+        return;
+    }
+    if case.idx % IDX_EXT_EVERY == 0 {
+        extend_index(ctx, case, t, &mut rng, &parsed, model, ks, ob, dup);
+    }
+}
+
+/// Level 1 (linear scan == model) and level 2 (every lookup flavour vs model) on one parsed index; `ph` names the
+/// path that produced it ("" = builder -> bytes -> parse).
+#[allow(clippy::too_many_arguments)]
+fn verify_index(ctx: &Ctx, case: &Case, t: &mut Tally, rng: &mut Rng, parsed: &ArchiveIndex, bytes: &[u8], model: &BTreeMap<Vec<u8>, Vec<Val>>, ks: usize, ob: usize, dup: bool, ph: &str, info: &Value) -> bool {
+    let cfg = format!("key_size={ks}|offset_bytes={ob}");
+    let n_entries: usize = model.values().map(Vec::len).sum();
     // level 1
     let mut scan: BTreeMap<Vec<u8>, Vec<Val>> = BTreeMap::new();
     for e in &parsed.entries {
@@ -189,16 +204,16 @@ pub fn run_index(ctx: &Ctx, case: &Case, t: &mut Tally) {
     for v in scan.values_mut() {
         v.sort_unstable();
     }
-    if scan != model {
+    if scan != *model {
         let key = model.iter().find(|(k, v)| scan.get(*k) != Some(v)).map(|(k, _)| k.clone()).or_else(|| scan.keys().find(|k| !model.contains_key(*k)).cloned()).unwrap_or_default();
         let cause = if !scan.contains_key(&key) { "missing-key" } else if !model.contains_key(&key) { "extra-key" } else { "value-differs" };
-        viol(ctx, case, &format!("C03|archive_index|built-output-misparsed|{cause}:{}|offset_bytes={ob}", key_class(&key)), "entries of the parsed archive index differ from what was inserted", json!({"key": hex::encode(&key), "inserted": model.get(&key), "parsed": scan.get(&key), "config": cfg, "info": info}));
-        return;
+        viol(ctx, case, &format!("C03|archive_index|{ph}built-output-misparsed|{cause}:{}|offset_bytes={ob}", key_class(&key)), "entries of the parsed archive index differ from what was inserted", json!({"key": hex::encode(&key), "inserted": model.get(&key), "parsed": scan.get(&key), "config": cfg, "info": info}));
+        return false;
     }
     // level 2
     let mut probes: Vec<Vec<u8>> = model.keys().cloned().collect();
     let inserted = probes.clone();
-    probes.extend(neg_probes(&mut rng, &inserted, ks));
+    probes.extend(neg_probes(rng, &inserted, ks));
     rng.shuffle(&mut probes);
     let mut lookups = 0u64;
     for p in &probes {
@@ -218,7 +233,7 @@ pub fn run_index(ctx: &Ctx, case: &Case, t: &mut Tally) {
                 _ => "wrong-value",
             };
             let probe_class = if p.len() < ks { "truncated-probe" } else if p.len() > ks { "extended-probe" } else { key_class(p) };
-            viol(ctx, case, &format!("C03|archive_index|binary_search_key|{rel}|key={probe_class}"), "binary_search_key/find_entry disagrees with the inserted mapping and the linear scan", json!({"key": hex::encode(p), "expected": expect, "got": got, "config": cfg, "info": info}));
+            viol(ctx, case, &format!("C03|archive_index|{ph}binary_search_key|{rel}|key={probe_class}"), "binary_search_key/find_entry disagrees with the inserted mapping and the linear scan", json!({"key": hex::encode(p), "expected": expect, "got": got, "config": cfg, "info": info}));
         }
         let mut all: Vec<Val> = parsed.find_all_key_matches(p).into_iter().map(entry_val).collect();
         all.sort_unstable();
@@ -228,15 +243,22 @@ pub fn run_index(ctx: &Ctx, case: &Case, t: &mut Tally) {
         let exp_all: Vec<Val> = expect.cloned().unwrap_or_default();
         if all != exp_all || all2 != exp_all {
             let rel = if all.len() < exp_all.len() { "matches-missing" } else if all.len() > exp_all.len() { "extra-matches" } else { "wrong-value" };
-            viol(ctx, case, &format!("C03|archive_index|find_all_key_matches|{rel}|{}", if dup { "duplicate-keys" } else { "distinct-keys" }), "find_all_key_matches disagrees with the inserted mapping and the linear scan", json!({"key": hex::encode(p), "expected": exp_all, "got": all, "config": cfg, "info": info}));
+            viol(ctx, case, &format!("C03|archive_index|{ph}find_all_key_matches|{rel}|{}", if dup { "duplicate-keys" } else { "distinct-keys" }), "find_all_key_matches disagrees with the inserted mapping and the linear scan", json!({"key": hex::encode(p), "expected": exp_all, "got": all, "config": cfg, "info": info}));
         }
     }
     t.o("archive_index.lookups", lookups);
-    t.o("archive_index.entries_inserted", keys.len() as u64);
-    t.o(&format!("archive_index.cfg.k{ks}.o{ob}"), 1);
+    if ph.is_empty() {
+        t.o("archive_index.entries_inserted", n_entries as u64);
+        t.o(&format!("archive_index.cfg.k{ks}.o{ob}"), 1);
+    } else {
+        t.o(&format!("archive_index.{}lookups", ph.replace('|', ".")), lookups);
+    }
+    if parsed.entry_count() != n_entries || parsed.chunk_count() != n_entries.div_ceil(4096 / (ks + 4 + ob)) {
+        viol(ctx, case, &format!("C03|archive_index|{ph}entry_count/chunk_count|!=inserted"), "entry / block counts of the parsed index differ from what was inserted", json!({"entry_count": parsed.entry_count(), "chunk_count": parsed.chunk_count(), "config": cfg, "info": info}));
+    }
 
     // chunk-loading flavour (documented as 16-byte keys / 24-byte records only)
-    if ks == 16 && ob == 4 && !dup {
+    if ph.is_empty() && ks == 16 && ob == 4 && !dup {
         if let Ok(dir) = tempfile::tempdir() {
             let path = dir.path().join("a.index");
             if std::fs::write(&path, &bytes).is_ok() {
@@ -268,8 +290,249 @@ pub fn run_index(ctx: &Ctx, case: &Case, t: &mut Tally) {
             }
         }
     }
-    if ctx.want_sample() && blocks >= 2 && ks != 16 {
+    if ph.is_empty() && ctx.want_sample() && n_entries > 4096 / (ks + 4 + ob) && ks != 16 {
         ctx.sample(json!({"family":"archive_index","params":case.params,"info":info,"probes":probes.len()}));
+    }
+    true
+}
+
+/// Every `IDX_EXT_EVERY`-th index also goes through the editing operations and the alternative writers.
+const IDX_EXT_EVERY: u64 = 3;
+
+fn absent_key(rng: &mut Rng, model: &BTreeMap<Vec<u8>, Vec<Val>>, ks: usize) -> Option<Vec<u8>> {
+    for _ in 0..32 {
+        let cand = if !model.is_empty() && rng.bool() {
+            let keys: Vec<&Vec<u8>> = model.keys().collect();
+            let base = (*rng.pick(&keys)).clone();
+            (if rng.bool() { be_inc(&base) } else { be_dec(&base) }).unwrap_or_else(|| rng.bytes(ks))
+        } else {
+            rng.bytes(ks)
+        };
+        if !model.contains_key(&cand) {
+            return Some(cand);
+        }
+    }
+    None
+}
+
+/// Coverage-driven extension: `ArchiveIndexBuilder::from_archive_index` + `remove_entry` / `remove_entry_full` /
+/// `add_entry*` / `clear` / `has_entry` / `find_entry` / `len`, rebuilt and written through one of the writers
+/// (`ArchiveIndexBuilder::build`, `ArchiveIndex::build`, `CascFormat::build`, `ArchiveIndex::write_to`), parsed and
+/// verified against the edited model (removed keys gone, replaced keys carry the new value).
+#[allow(clippy::too_many_arguments, clippy::too_many_lines)]
+fn extend_index(ctx: &Ctx, case: &Case, t: &mut Tally, rng: &mut Rng, parsed: &ArchiveIndex, mut model: BTreeMap<Vec<u8>, Vec<Val>>, ks: usize, ob: usize, dup: bool) {
+    let sel = case.idx / IDX_EXT_EVERY;
+    let path = sel % 4;
+    let clear_first = (sel / 4) % 3 == 2;
+    let ph = match path {
+        0 => "after-edit|",
+        1 => "after-edit+ArchiveIndex::build|",
+        2 => "after-edit+CascFormat|",
+        _ => "after-edit+write_to|",
+    };
+    let cfg = format!("key_size={ks}|offset_bytes={ob}");
+    let bviol = |api: &str, rel: &str, witness: Value| {
+        viol(ctx, case, &format!("C03|archive_index|ArchiveIndexBuilder::{api}|{rel}"), "an editing operation of ArchiveIndexBuilder disagrees with the model of what the builder holds", json!({"witness": witness, "config": cfg}));
+    };
+    let count = |m: &BTreeMap<Vec<u8>, Vec<Val>>| -> usize { m.values().map(Vec::len).sum() };
+    let mut b = ArchiveIndexBuilder::from_archive_index(parsed);
+    t.o("archive_index.edit.from_archive_index", 1);
+    if b.len() != count(&model) || b.is_empty() != model.is_empty() {
+        bviol("from_archive_index", "len!=parsed-index", json!({"len": b.len(), "is_empty": b.is_empty(), "expected": count(&model)}));
+        return;
+    }
+    let max_off = (1u64 << (8 * ob as u32)) - 1;
+    let mut add_calls = 0u64;
+    let mut add = |b: &mut ArchiveIndexBuilder, rng: &mut Rng, key: &[u8], v: Val| {
+        add_calls += 1;
+        if ks == 16 && v.1 <= u64::from(u32::MAX) && rng.chance(1, 3) {
+            b.add_entry_old(crate::common::k16(key), v.0, v.1 as u32);
+        } else if ks == 16 && rng.bool() {
+            b.add_entry_full(crate::common::k16(key), v.0, v.1);
+        } else {
+            b.add_entry(key.to_vec(), v.0, v.1);
+        }
+    };
+    if clear_first {
+        b.clear();
+        t.o("archive_index.edit.clear", 1);
+        if b.len() != 0 || !b.is_empty() || model.keys().take(8).any(|k| b.has_entry(k)) {
+            bviol("clear", "entries-left", json!({"len": b.len()}));
+            return;
+        }
+        let mut all: Vec<(Vec<u8>, Val)> = model.iter().flat_map(|(k, vs)| vs.iter().map(move |v| (k.clone(), *v))).collect();
+        rng.shuffle(&mut all);
+        for (k, v) in all {
+            add(&mut b, rng, &k, v);
+        }
+    }
+    // presence queries (full-length keys)
+    let keys: Vec<Vec<u8>> = model.keys().cloned().collect();
+    let mut n_q = 0u64;
+    for k in keys.iter().step_by((keys.len() / 30).max(1)) {
+        n_q += 2;
+        let f = b.find_entry(k).map(entry_val);
+        if !b.has_entry(k) || !f.is_some_and(|v| model[k].contains(&v)) {
+            bviol("has_entry/find_entry", "present-key-not-found", json!({"key": hex::encode(k), "has_entry": b.has_entry(k), "find_entry": f}));
+        }
+        if let Some(a) = absent_key(rng, &model, ks) {
+            if b.has_entry(&a) || b.find_entry(&a).is_some() {
+                bviol("has_entry/find_entry", "absent-key-found", json!({"key": hex::encode(&a)}));
+            }
+        }
+    }
+    // removals
+    let share = [0u64, 8, 4, 2][rng.usize_below(4)];
+    let mut removed: Vec<Vec<u8>> = Vec::new();
+    if share != 0 && !keys.is_empty() {
+        let mut picks: Vec<Vec<u8>> = Vec::new();
+        if rng.bool() {
+            picks.push(keys[0].clone());
+        }
+        if rng.bool() {
+            picks.push(keys[keys.len() - 1].clone());
+        }
+        for k in &keys {
+            if rng.chance(1, share) {
+                picks.push(k.clone());
+            }
+        }
+        picks.sort_unstable();
+        picks.dedup();
+        rng.shuffle(&mut picks);
+        for k in picks {
+            let before = b.len();
+            let r = if ks == 16 && rng.bool() { b.remove_entry_full(&crate::common::k16(&k)) } else { b.remove_entry(&k) };
+            let had = model.remove(&k).map_or(0, |v| v.len());
+            if !r || before - b.len() != had {
+                bviol("remove_entry", "present-key-not-removed", json!({"key": hex::encode(&k), "returned": r, "entries_removed": before - b.len(), "entries_of_key": had}));
+            }
+            removed.push(k);
+        }
+    }
+    for _ in 0..4 {
+        if let Some(a) = absent_key(rng, &model, ks) {
+            let before = b.len();
+            if b.remove_entry(&a) || b.len() != before {
+                bviol("remove_entry", "absent-key-removed-something", json!({"key": hex::encode(&a), "entries_removed": before - b.len()}));
+            }
+        }
+    }
+    // replacements (remove + add with a new value) and additions
+    let mut replaced = 0u64;
+    let survivors: Vec<Vec<u8>> = model.keys().cloned().collect();
+    for k in &survivors {
+        if rng.chance(1, 8) {
+            if !b.remove_entry(k) {
+                bviol("remove_entry", "present-key-not-removed", json!({"key": hex::encode(k), "returned": false}));
+            }
+            let v: Val = (size32_nonzero(rng), offset_of(rng, ob).min(max_off));
+            add(&mut b, rng, k, v);
+            model.insert(k.clone(), vec![v]);
+            replaced += 1;
+        }
+    }
+    let rpb = 4096 / (ks + 4 + ob);
+    let adds = match rng.below(4) {
+        0 => 0,
+        1 => rng.urange(1, 3),
+        2 => rng.urange(4, 40),
+        _ => rng.urange(rpb / 2, rpb + 2),
+    };
+    let mut added = 0u64;
+    for i in 0..adds {
+        let k = if i == 0 && !removed.is_empty() && rng.bool() { Some(removed[0].clone()) } else { absent_key(rng, &model, ks) };
+        let Some(k) = k else { continue };
+        let all_zero = k.iter().all(|&x| x == 0);
+        let v: Val = (size32_nonzero(rng), offset_of(rng, ob).min(max_off));
+        if all_zero && v.1 == 0 && v.0 == 0 {
+            continue;
+        }
+        if dup && rng.chance(1, 4) {
+            // a second entry for a present key (find_all defines the result)
+            if let Some(pk) = model.keys().next().cloned() {
+                add(&mut b, rng, &pk, v);
+                let e = model.entry(pk).or_default();
+                e.push(v);
+                e.sort_unstable();
+                added += 1;
+                continue;
+            }
+        }
+        if model.contains_key(&k) {
+            continue;
+        }
+        add(&mut b, rng, &k, v);
+        model.insert(k, vec![v]);
+        added += 1;
+    }
+    if b.len() != count(&model) || b.is_empty() != model.is_empty() {
+        bviol("len", "!=model-after-edits", json!({"len": b.len(), "expected": count(&model)}));
+    }
+    for k in removed.iter().take(30) {
+        n_q += 1;
+        if b.has_entry(k) != model.contains_key(k) {
+            bviol("has_entry", "!=model-after-remove", json!({"key": hex::encode(k), "in_model": model.contains_key(k)}));
+        }
+    }
+    t.o("archive_index.edit.presence_queries", n_q);
+    t.o("archive_index.edit.removed", removed.len() as u64);
+    t.o("archive_index.edit.replaced", replaced);
+    t.o("archive_index.edit.added", added);
+    // build and write through the selected writer
+    let mut buf = Cursor::new(Vec::new());
+    let index = match b.build(&mut buf) {
+        Ok(ix) => ix,
+        Err(_) => {
+            t.o("archive_index.edit.builder_refused", 1);
+            return;
+        }
+    };
+    t.o("archive_index.edit.add_calls", add_calls);
+    let written: Result<Vec<u8>, String> = match path {
+        0 => Ok(buf.into_inner()),
+        1 => {
+            let mut w = Cursor::new(Vec::new());
+            index.build(&mut w).map(|()| w.into_inner()).map_err(|e| err_class(&e))
+        }
+        2 => <ArchiveIndex as CascFormat>::build(&index).map_err(|_| "Err".to_string()),
+        _ => {
+            let mut w = Cursor::new(Vec::new());
+            index.write_to(&mut w).map(|()| w.into_inner()).map_err(|e| err_class(&e))
+        }
+    };
+    let wname = ["ArchiveIndexBuilder::build", "ArchiveIndex::build", "CascFormat", "write_to"][path as usize];
+    t.o(&format!("archive_index.edit.writer.{wname}"), 1);
+    let bytes = match written {
+        Ok(b) => b,
+        Err(_) => {
+            t.o("archive_index.edit.writer_refused", 1);
+            return;
+        }
+    };
+    let n = count(&model);
+    let info = json!({"entries": n, "distinct_keys": model.len(), "records_per_block": rpb, "blocks": n.div_ceil(rpb), "bytes": bytes.len(), "removed": removed.len(), "replaced": replaced, "added": added, "writer": wname});
+    let layout = if ks == 16 && ob == 4 { "default-layout" } else { "other-layout" };
+    let reparsed = if path == 2 { <ArchiveIndex as CascFormat>::parse(&bytes).map_err(|_| "Err".to_string()) } else { ArchiveIndex::parse(Cursor::new(&bytes[..])).map_err(|e| err_class(&e)) };
+    let reparsed = match reparsed {
+        Ok(p) => p,
+        Err(cls) => {
+            viol(ctx, case, &format!("C03|archive_index|{ph}built-output-misparsed|parse-error|{layout}"), "ArchiveIndex::parse rejects the written output of an edited / re-written index", json!({"error_class": cls, "config": cfg, "info": info}));
+            return;
+        }
+    };
+    t.o("archive_index.edit.structures", 1);
+    if verify_index(ctx, case, t, rng, &reparsed, &bytes, &model, ks, ob, dup, ph, &info) {
+        let mut gone = 0u64;
+        for k in &removed {
+            if !model.contains_key(k) {
+                gone += 1;
+                if reparsed.binary_search_key(k).is_some() || !reparsed.find_all_key_matches(k).is_empty() {
+                    viol(ctx, case, &format!("C03|archive_index|{ph}binary_search_key|removed-key-found"), "a key removed with remove_entry still resolves after rebuild", json!({"key": hex::encode(k), "config": cfg, "info": info}));
+                }
+            }
+        }
+        t.o("archive_index.edit.removed_key_probes", gone);
     }
 }
 
@@ -285,7 +548,7 @@ pub fn run_group(ctx: &Ctx, case: &Case, t: &mut Tally) {
     let build_ok = match mode.as_str() {
         "builder" => {
             let keys = gen_keyset(&mut rng, n, 16);
-            let mut b = ArchiveGroupBuilder::new();
+            let mut b = if case.idx % 2 == 0 { ArchiveGroupBuilder::new() } else { ArchiveGroupBuilder::default() };
             for k in &keys {
                 let size = size32_nonzero(&mut rng);
                 let off = match rng.below(5) {
@@ -386,6 +649,25 @@ pub fn run_group(ctx: &Ctx, case: &Case, t: &mut Tally) {
     }
     // second parser over the same bytes: the generic index with TOC search
     let index = ArchiveIndex::parse(Cursor::new(&bytes[..])).ok();
+    // the 6-byte composite offset of a parsed entry splits back into the inserted (archive, offset) pair, and the
+    // generic parser yields exactly the entry `IndexEntry::new_archive_group` makes of the inserted values
+    let step = (group.entries.len() / 300).max(1);
+    let mut n_id = 0u64;
+    for e in group.entries.iter().step_by(step) {
+        let Some(&(size, ai, off)) = model.get(&e.encoding_key) else { continue };
+        n_id += 1;
+        let split = ArchiveGroupEntry::parse_combined_offset(&e.combined_offset()).ok();
+        if split != Some((ai, off)) {
+            viol(ctx, case, "C03|archive_group|combined_offset+parse_combined_offset|!=inserted", "the 6-byte composite offset of a parsed entry does not split back into the inserted archive index and offset", json!({"key": hex::encode(&e.encoding_key), "expected": [u64::from(ai), u64::from(off)], "got": split.map(|(a, o)| [u64::from(a), u64::from(o)]), "info": info}));
+        }
+        if let Some(ix) = &index {
+            let want = IndexEntry::new_archive_group(e.encoding_key.clone(), size, ai, off);
+            if ix.binary_search_key(&e.encoding_key) != Some(&want) {
+                viol(ctx, case, "C03|archive_group|ArchiveIndex::parse|entry!=new_archive_group(inserted)", "the generic index parser reads an archive-group record differently from the inserted values", json!({"key": hex::encode(&e.encoding_key), "info": info}));
+            }
+        }
+    }
+    t.o("archive_group.composite_offset_identities", n_id);
     let mut inserted: Vec<Vec<u8>> = model.keys().cloned().collect();
     if inserted.len() > 3000 {
         rng.shuffle(&mut inserted);
